@@ -183,6 +183,8 @@ FILE *__real_fopen(const char *, const char *);
 int __real_fclose(FILE *);
 FILE *__real_fmemopen(void *, size_t, const char *);
 int __real_stat(const char *, struct stat *);
+int __real_fstat(int, struct stat *);
+int __real_fileno(FILE *);
 char *__real_getenv(const char *);
 struct passwd *__real_getpwnam(const char *);
 struct passwd *__real_getpwuid(uid_t);
@@ -426,17 +428,40 @@ void sim_free(void *p, const char *func, int unit)
 
 // ------------------------------------------------------------------ S3 file namespace
 
+// Path lookup as a file system does it: runs of '/' count as one; a trailing '/' demands a directory.
+static sim::FsNode *fs_lookup(const char *path, int *err)
+{
+	std::string p;
+	for (const char *c = path; *c; c++)
+		if (!(*c == '/' && !p.empty() && p.back() == '/'))
+			p += *c;
+	bool want_dir = p.size() > 1 && p.back() == '/';
+	if (want_dir)
+		p.pop_back();
+	auto it = W.fs.find(p);
+	if (it == W.fs.end()) {
+		*err = ENOENT;
+		return nullptr;
+	}
+	if (want_dir && it->second.kind != sim::FS_DIR) {
+		*err = ENOTDIR;
+		return nullptr;
+	}
+	return &it->second;
+}
+
 FILE *__wrap_fopen(const char *path, const char *mode)
 {
 	if (!W.in_lib)
 		return sim::__real_fopen(path, mode);
 	W.fopen_calls++;
-	auto it = W.fs.find(path);
-	if (it == W.fs.end()) {
-		errno = ENOENT;
+	int lerr = 0;
+	sim::FsNode *np = fs_lookup(path, &lerr);
+	if (!np) {
+		errno = lerr;
 		return nullptr;
 	}
-	sim::FsNode &n = it->second;
+	sim::FsNode &n = *np;
 	if (n.kind == sim::FS_NOPERM) {
 		errno = EACCES;
 		return nullptr;
@@ -472,21 +497,44 @@ FILE *__wrap_fmemopen(void *buf, size_t n, const char *mode)
 	return fp;
 }
 
+// simulated streams have file descriptors of their own, so that fstat(fileno(fp)) sees the simulated node
+int __wrap_fileno(FILE *fp)
+{
+	if (W.in_lib)
+		for (sim::SimStream *s : W.streams)
+			if (s->fp == fp)
+				return 1000 + s->id;
+	return sim::__real_fileno(fp);
+}
+
+int __wrap_fstat(int fd, struct stat *st)
+{
+	if (W.in_lib && fd >= 1000 && (size_t)(fd - 1000) < W.streams.size()) {
+		sim::SimStream *s = W.streams[fd - 1000];
+		memset(st, 0, sizeof(*st));
+		st->st_mode = s->eisdir ? (S_IFDIR | 0755) : (S_IFREG | 0644);
+		st->st_size = (off_t)s->bytes.size();
+		return 0;
+	}
+	return sim::__real_fstat(fd, st);
+}
+
 int __wrap_stat(const char *path, struct stat *st)
 {
 	if (!W.in_lib)
 		return sim::__real_stat(path, st);
 	W.stat_calls++;
-	auto it = W.fs.find(path);
-	if (it == W.fs.end()) {
-		errno = ENOENT;
+	int lerr = 0;
+	sim::FsNode *np = fs_lookup(path, &lerr);
+	if (!np) {
+		errno = lerr;
 		return -1;
 	}
 	memset(st, 0, sizeof(*st));
-	st->st_mode = it->second.kind == sim::FS_DIR ? (S_IFDIR | 0755) : (S_IFREG | 0644);
-	if (it->second.kind == sim::FS_NOPERM)
+	st->st_mode = np->kind == sim::FS_DIR ? (S_IFDIR | 0755) : (S_IFREG | 0644);
+	if (np->kind == sim::FS_NOPERM)
 		st->st_mode = S_IFREG; // exists, no permission bits
-	st->st_size = (off_t)it->second.bytes.size();
+	st->st_size = (off_t)np->bytes.size();
 	return 0;
 }
 
